@@ -63,6 +63,35 @@ struct Gen
         s.ops.push_back(send(p.command()));
     }
 
+    // ops that give the engine a small well-formed book holding a few legal moves of the current position
+    // (returns the recorded moves); the book file layer is the C19 one, without faults
+    std::vector<ref::RMove> load_book_for_current(bool best_policy)
+    {
+        ref::Board b = pos.game.cur;
+        auto ms = b.legal();
+        std::vector<ref::RMove> rec;
+        if (ms.empty()) return rec;
+        int n = int(r.range(1, 3));
+        std::string spec;
+        for (int i = 0; i < n; ++i)
+        {
+            ref::RMove m = ms[r.below(ms.size())];
+            rec.push_back(m);
+            int from = m.from, to = m.to;
+            if (ref::kind_of(b.sq[m.from]) == ref::KIND_K && std::abs(ref::file_of(m.to) - ref::file_of(m.from)) == 2)
+                to = ref::sq_of(ref::file_of(m.to) == 6 ? 7 : 0, ref::rank_of(m.from));
+            int promo = m.promo ? m.promo - 1 : 0;
+            int code = promo << 12 | ref::rank_of(from) << 9 | ref::file_of(from) << 6 | ref::rank_of(to) << 3 | ref::file_of(to);
+            spec += "F|" + b.fen() + "|" + std::to_string(code) + "|" + std::to_string(r.range(1, 50)) + ";";
+        }
+        s.ops.push_back(simple(OP_AWAIT_IDLE));
+        s.ops.push_back(simple(OP_CHECK, "bookfile 0 0 -1 " + spec));
+        s.ops.push_back(send("setoption name Polyglot Book value @BOOK@"));
+        s.ops.push_back(send(std::string("setoption name Polyglot Sample value ") + (best_policy ? "best" : "random")));
+        s.ops.push_back(simple(OP_AWAIT_IDLE));
+        return rec;
+    }
+
     std::string searchmoves_clause(double p_single)
     {
         ref::Board b = pos.game.cur;
@@ -267,6 +296,29 @@ Script gen_c06(uint64_t seed, const std::string& tier, Rng& r)
     s.cfg.xsputn_preempt = r.chance(0.5);
     if (r.chance(0.08))
     {
+        // the book answers: the search thread only prints a bestmove; stop / isready / the next go arrive around it
+        s.cfg.await_task_end = false;
+        int n = int(r.range(1, 3));
+        for (int i = 0; i < n; ++i)
+        {
+            g.set_position(gen_position(r, 40, 0));
+            if (i == 0 || r.chance(0.5)) g.load_book_for_current(r.chance(0.5));
+            s.ops.push_back(send(r.chance(0.5) ? "go infinite" : "go depth 3"));
+            uint64_t k = r.below(4);
+            if (k == 0) s.ops.push_back(send("stop"));
+            else if (k == 1) { s.ops.push_back(send("isready")); s.ops.push_back(simple(OP_AWAIT_READY)); }
+            s.ops.push_back(simple(OP_AWAIT_BEST));
+            if (k == 2) s.ops.push_back(send("stop"));  // late stop, after the book move is out
+            // next request immediately
+            g.set_position(gen_position(r, 40, 0), false);
+            s.ops.push_back(send(g.unbounded_go()));
+            s.ops.push_back(g.windowed("stop", r.chance(0.5) ? 4 : g.draw_window(), r.chance(0.5)));
+            s.ops.push_back(simple(OP_AWAIT_BEST));
+        }
+        return s;
+    }
+    if (r.chance(0.08))
+    {
         // isready racing the search thread's bestmove print: every partial write is a preemption point, the reader's
         // readyok may land while "bestmove ..." is half written (that is what the output lock is for)
         s.cfg.xsputn_preempt = true;
@@ -410,6 +462,7 @@ Script gen_session(uint64_t seed, const std::string& prop, Rng& r, int max_go, b
                 s.ops.push_back(simple(OP_POISON, buf));
             }
         }
+        if (prop == "C05" && !poison && r.chance(0.06)) g.load_book_for_current(r.chance(0.5));
         bool stopped = r.chance(inject ? 0.45 : 0.15);
         std::string go;
         if (stopped && r.chance(0.5)) go = g.unbounded_go();
@@ -446,6 +499,20 @@ Script gen_c09(uint64_t seed, const std::string& tier, Rng& r)
     for (int i = 0; i < ngo; ++i)
     {
         uint64_t kind = r.below(100);
+        if (kind >= 92)
+        {
+            // an opening book is loaded and knows this position; searchmoves still binds
+            g.set_position(gen_position(r, 40, 0));
+            have_pos = true;
+            g.load_book_for_current(r.chance(0.5));
+            int ng = int(r.range(1, 3));
+            for (int j = 0; j < ng; ++j)
+            {
+                s.ops.push_back(send("go depth " + std::to_string(r.range(1, 3)) + g.searchmoves_clause(0.4)));
+                s.ops.push_back(simple(OP_AWAIT_BEST));
+            }
+            continue;
+        }
         if (kind < 20)
         {
             // huge depth limits on positions whose iterations are tiny
@@ -519,7 +586,7 @@ Script gen_c03_c04(uint64_t seed, const std::string& prop, Rng& r)
         // at clock 99 and for draw cut-offs to sit right below
         PosSpec p = gen_position(r, 60, 2);
         ref::Board b = p.game.cur;
-        b.halfmove = int(r.range(95, 99));
+        b.halfmove = int(r.chance(0.7) ? r.range(95, 99) : r.range(100, 149));  // beyond 100: nobody claimed the draw
         b.ep = -1;
         PosSpec q;
         q.start_fen = b.fen();
@@ -955,6 +1022,18 @@ Script gen_c10(uint64_t seed, const std::string& tier, Rng& r)
             s.ops.push_back(st);
             s.ops.push_back(simple(OP_AWAIT_BEST));
         }
+    }
+    else if (shape < 50)
+    {
+        // the evaluator on every specialised endgame class and on extreme material, through the UCI `staticeval` command
+        int n = int(r.range(8, 25));
+        for (int i = 0; i < n; ++i)
+        {
+            std::string fen = r.chance(0.75) ? gen_endgame_class_fen(r) : (r.chance(0.5) ? gen_heavy_fen(r) : gen_sparse_fen(r, 0, 7, true));
+            s.ops.push_back(send("position fen " + fen));
+            s.ops.push_back(send("staticeval"));
+        }
+        s.ops.push_back(simple(OP_AWAIT_IDLE));
     }
     else if (shape < 53)
     {
